@@ -775,30 +775,30 @@ end pm
 /-! ## one frame: the cases -/
 
 /-- the properties whose Spec clauses are proved to hold on every run of the model -/
-def proven : List String := ["C19", "C01", "C06", "C03", "C07", "C05"]
+def provenCore : List String := ["C19", "C01", "C06", "C03", "C07", "C05"]
 
 /-- the tags of all the other clauses -/
-def others : List String := ["C14", "C18"]
+def othersCore : List String := ["C14", "C18"]
 
-theorem proven_not {p : String} (hp : p ∈ proven) : p ∉ others := by
-  simp only [proven, List.mem_cons, List.not_mem_nil, or_false] at hp
+theorem proven_not {p : String} (hp : p ∈ provenCore) : p ∉ othersCore := by
+  simp only [provenCore, List.mem_cons, List.not_mem_nil, or_false] at hp
   rcases hp with rfl | rfl | rfl | rfl | rfl | rfl <;> decide
 
 theorem ext_others {T : List String} {a b : Spec.A} (h : Spec.ErrExt T a b)
-    (hs : ∀ p, p ∈ T → p ∈ others := by simp [others]) : Spec.CoreExt others a b := (h.mono hs).core
+    (hs : ∀ p, p ∈ T → p ∈ othersCore := by simp [othersCore]) : Spec.CoreExt othersCore a b := (h.mono hs).core
 
 theorem core_others {T : List String} {a b : Spec.A} (h : Spec.CoreExt T a b)
-    (hs : ∀ p, p ∈ T → p ∈ others := by simp [others]) : Spec.CoreExt others a b := h.mono hs
+    (hs : ∀ p, p ∈ T → p ∈ othersCore := by simp [othersCore]) : Spec.CoreExt othersCore a b := h.mono hs
 
 /-- the conclusion of every case: the invariant holds again, and no clause of a proved property was violated -/
 def SegGoal (cfg : Cfg) (a : Spec.A) (rd : Read) (evs : List Ev) (s2 : State) : Prop :=
-  Inv cfg (Spec.segment cfg a rd evs) s2 ∧ ∀ p ∈ proven, Spec.NoErr p a → Spec.NoErr p (Spec.segment cfg a rd evs)
+  Inv cfg (Spec.segment cfg a rd evs) s2 ∧ ∀ p ∈ provenCore, Spec.NoErr p a → Spec.NoErr p (Spec.segment cfg a rd evs)
 
 theorem segGoal_of2 {cfg : Cfg} {a a0 W : Spec.A} {rd : Read} {evs : List Ev} {s2 : State}
     (hseg : Spec.segment cfg a rd evs = Spec.applyDepartures W evs)
-    (herr : ∀ p, p ∉ others → Spec.NoErr p a → Spec.NoErr p a0)
+    (herr : ∀ p, p ∉ othersCore → Spec.NoErr p a → Spec.NoErr p a0)
     (h : Inv cfg (Spec.applyDepartures W evs) s2 ∧
-      (∀ p, p ∉ others → Spec.NoErr p a0 → Spec.NoErr p (Spec.applyDepartures W evs))) : SegGoal cfg a rd evs s2 := by
+      (∀ p, p ∉ othersCore → Spec.NoErr p a0 → Spec.NoErr p (Spec.applyDepartures W evs))) : SegGoal cfg a rd evs s2 := by
   unfold SegGoal
   rw [hseg]
   exact ⟨h.1, fun p hp hn => h.2 p (proven_not hp) (herr p (proven_not hp) hn)⟩
@@ -806,7 +806,7 @@ theorem segGoal_of2 {cfg : Cfg} {a a0 W : Spec.A} {rd : Read} {evs : List Ev} {s
 theorem segGoal_of {cfg : Cfg} {a a0 W : Spec.A} {rd : Read} {evs : List Ev} {s2 : State}
     (hseg : Spec.segment cfg a rd evs = Spec.applyDepartures W evs) (herr : a0.errs = a.errs)
     (h : Inv cfg (Spec.applyDepartures W evs) s2 ∧
-      (∀ p, p ∉ others → Spec.NoErr p a0 → Spec.NoErr p (Spec.applyDepartures W evs))) : SegGoal cfg a rd evs s2 :=
+      (∀ p, p ∉ othersCore → Spec.NoErr p a0 → Spec.NoErr p (Spec.applyDepartures W evs))) : SegGoal cfg a rd evs s2 :=
   segGoal_of2 hseg (fun p _ hn => by unfold Spec.NoErr; rw [herr]; exact hn) h
 
 theorem rdState_find (cfg : Cfg) (s : State) (rd : Read) (v : Nat) : (rdState cfg s rd).find v = s.find v := rfl
@@ -848,7 +848,7 @@ theorem seg_broken (hb : Spec.brokenRd cfg rd = true) (q : QuietTo cfg (readOne 
     (dt_remove ok hall hfuel t0 rd.uid).bind (fun h' => (dt_log ok hall hfuel h' lvl).anyJ _)
   obtain ⟨hmd, hunt⟩ := removed_first ok hall hfuel t0 rd.uid m hm ((logTop_nest cfg lvl _).trans q.nest) q.j evs he
   have hseg := Spec.segment_broken_c07 cfg a rd evs am hget hal hb hunt
-  have hW : Spec.CoreExt others (Spec.afterBuf cfg a rd)
+  have hW : Spec.CoreExt othersCore (Spec.afterBuf cfg a rd)
       (Spec.checkDepartures cfg (Spec.checkAcks cfg (Spec.afterBuf cfg a rd) rd.uid false evs) (some rd.uid) evs) := by
     rw [Spec.checkAcks_false_ok cfg _ rd.uid evs hnil]
     exact ext_others (dep_ext (rdState_sim inv.sim rd) t0 n q evs he (Spec.CoreExt.refl [] _) (some rd.uid) dt.dep
@@ -864,7 +864,7 @@ theorem seg_reconnect (hc : (rd.h.mtype == cfg.mtConnect || rd.h.mtype == cfg.mt
     pm_reconnect cfg _ _ _ hc (by unfold lookupMod; rw [rdState_find, hm]; simp [← hsm.connected, hcn])] at q
   have hseg := Spec.segment_reconnect cfg a rd evs am hget hal hb hc hcn
   have hnil := acks_nil_of_quiet (Quiet.refl _ _) q evs he
-  have hW : Spec.CoreExt others (Spec.afterBuf cfg a rd)
+  have hW : Spec.CoreExt othersCore (Spec.afterBuf cfg a rd)
       (Spec.checkDepartures cfg (Spec.checkAcks cfg (Spec.afterBuf cfg a rd) rd.uid false evs) none evs) := by
     rw [Spec.checkAcks_false_ok cfg _ rd.uid evs hnil]
     exact ext_others (dep_ext (rdState_sim inv.sim rd) (rdState_top ok hfuel inv.top rd) (Nest.refl _) q evs he
@@ -884,7 +884,7 @@ theorem seg_disconnect (hd : (rd.h.mtype == cfg.mtDisconnect) = true) : SegGoal 
     (dt_remove ok hall hfuel t0 rd.uid).bind (fun h' => (dt_log ok hall hfuel h' 20).anyJ _)
   obtain ⟨hmd, hunt⟩ := removed_first ok hall hfuel t0 rd.uid m hm ((logTop_nest cfg 20 _).trans q.nest) q.j evs he
   have hseg := Spec.segment_disconnect_c07 cfg a rd evs am hget hal hb hc hd hunt
-  have hW : Spec.CoreExt others (Spec.afterBuf cfg a rd)
+  have hW : Spec.CoreExt othersCore (Spec.afterBuf cfg a rd)
       (Spec.checkDepartures cfg (Spec.checkAcks cfg (Spec.afterBuf cfg a rd) rd.uid false evs) (some rd.uid) evs) := by
     rw [Spec.checkAcks_false_ok cfg _ rd.uid evs hnil]
     exact ext_others (dep_ext (rdState_sim inv.sim rd) t0 n q evs he (Spec.CoreExt.refl [] _) (some rd.uid) dt.dep
@@ -910,7 +910,7 @@ theorem seg_setName_bad (hn : (rd.h.mtype == cfg.mtSetName) = true) (hnm : cstr 
   have hgone : s2.find rd.uid = none := nest_gone q.nest q.top.aopen rd.uid (removeModule_none cfg _ _ rd.uid)
   have hmd : Ev.close rd.uid ∈ evs :=
     closed_of_gone (n.trans q.nest) evs he rd.uid ⟨m, hm, inv.top.aopen _ _ hm⟩ hgone
-  have hW : Spec.CoreExt others (Spec.afterBuf cfg a rd)
+  have hW : Spec.CoreExt othersCore (Spec.afterBuf cfg a rd)
       (Spec.checkDepartures cfg (Spec.checkAcks cfg (Spec.afterBuf cfg a rd) rd.uid false evs) (some rd.uid) evs) := by
     rw [Spec.checkAcks_false_ok cfg _ rd.uid evs hnil]
     exact ext_others (dep_ext (rdState_sim inv.sim rd) t0 n q evs he (Spec.CoreExt.refl [] _) (some rd.uid) dt.dep
